@@ -43,6 +43,13 @@ def scenarios(tier):
             params["Name"] = "c1"
         parent = chain(("L", {"Type": "Task", "Resource": SFN + form, "Parameters": params, "ResultSelector": {"st.$": "$.Status", "out.$": "$.Output"}, "ResultPath": "$.child"}), Z)
         out.append(multi("crash-sync-child-%s" % nm, {"m": {"definition": parent}, "c": {"definition": child}}, [{"machine": "m", "name": "e1", "input": {"k": 1}}], family="crash-sync-child-%s" % nm))
+    # a fan-out nested in a fan-out: after the restart an inner-level event can be handled before any outer-level event has rebuilt the outer join state
+    # (quick: at most 2 deviations from the canonical order after the restart; thorough: closed)
+    nb = 2 if tier == "quick" else None
+    add("crash-par-in-par", chain(("P", Parallel([chain(("Q", Parallel([chain(("A1", Task("fa"))), chain(("B1", Pass(Result="b")))]))), chain(("C1", Task("fc")))])), Z),
+        workers={"fa": {"*": [["delay", ["ok", "a"]]]}, "fc": {"*": OK("c")}}, post_bound=nb)
+    add("crash-par-in-map", chain(("M", Map(chain(("Q", Parallel([chain(("A1", Task("fa"))), chain(("B1", Pass(Result="b")))]))))), Z),
+        workers={"fa": {"*": [["echo"]]}}, input=[1, 2], post_bound=nb)
     if tier == "thorough":
         add("crash-parallel-2x2", chain(("P", Parallel([chain(("A1", Task("fa")), ("A2", Task("fa2"))), chain(("B1", Task("fb")), ("B2", Wait(1)))])), Z),
             workers={"fa": {"*": OK("a")}, "fb": {"*": OK("b")}, "fa2": {"*": OK("a2")}})
@@ -114,7 +121,7 @@ def run(tier, seed):
                 if sc.get("schedule") == "timed":
                     s2["delay_budget"] = 0      # after the restart time only passes while the system is idle (prompt class)
                 lim = dict(limits0, preamble=pre)
-                jobs.append((s2, None, lim)); by_name[s2["name"]] = s2
+                jobs.append((s2, sc.get("post_bound"), lim)); by_name[s2["name"]] = s2
                 npoints[variant] += 1
         for j, lab in enumerate(labels):
             if j < sc.get("crash_from", 0) and sc.get("crash_from"):
@@ -125,7 +132,7 @@ def run(tier, seed):
                 s2["family"] = "%s/midstep" % sc["family"]
                 s2["preserve_outcome"] = False
                 lim = dict(limits0, preamble=labels[:j] + [["arm_crash", k], lab, ["restart", 1]])
-                jobs.append((s2, None, lim)); by_name[s2["name"]] = s2
+                jobs.append((s2, sc.get("post_bound"), lim)); by_name[s2["name"]] = s2
                 npoints["midstep"] += 1
         if tier == "thorough":
             for k1 in range(0, len(labels), 2):
@@ -142,10 +149,11 @@ def run(tier, seed):
     cr.coverage = {
         "states": tot["states"], "transitions": tot["transitions"], "traces_validated_against_impl": tot["paths"],
         "samples": samples, "scenarios": len(scs), "crash_points": npoints, "explorations": len(jobs),
-        "capped": tot["capped"], "max_depth": tot["max_depth"], "exhaustive": not tot["capped"],
+        "capped": tot["capped"], "max_depth": tot["max_depth"], "exhaustive": not tot["capped"] and tot["bounded"] == 0,
+        "closed_explorations": tot["closed"], "deviation_bounded_explorations": tot["bounded"],
         "explanation": "for every scenario: every crash point between two atomic steps of the canonical run (plain and with the head message of every consumed queue already "
                        "in flight to the dead process) and every crash point after an individual broker operation inside a step; after the restart all interleavings of redelivered "
-                       "events, pending worker replies and timers are explored (closed). Oracles: no execution lost; (between-steps) same terminal status/output as crash-free; no correlation id requested twice",
+                       "events, pending worker replies and timers are explored (closed; the nested fan-out scenarios with at most 2 deviations from the canonical order in the quick tier). Oracles: no execution lost; (between-steps) same terminal status/output as crash-free; no correlation id requested twice",
     }
     cr.assumptions = list(common.ASSUME_SIM) + ["a crash = the broker sees the connection drop: all unacked deliveries are requeued at their original position flagged redelivered; "
                                                   "volatile engine state is lost; the JSON store file survives"]
